@@ -5,8 +5,10 @@ CONSTANTS
   Concurrent = FALSE
   DuelChoices <- Both
   MaxW = 3
-  MaxVal = 2
+  MaxVal = 1
   MaxPin = 1
+  TrackRounds = FALSE
   Confs <- ConfsSeq
+CONSTRAINT Constraint
 INVARIANTS TypeOK NoPanic PinnedNeverEvicted ReadableUntilGone RegionInv NoLeak BoundedM BoundedNotify SlackOK BoundedAfterRounds
 CHECK_DEADLOCK FALSE
